@@ -32,11 +32,20 @@ package db19
 // update that changes the key (cascades == CascadeUpdates) - is refused unless the foreign key
 // cascades that kind of change: if fkeyDeleteBlock returns normally then every foreign key that
 // points at this index either cascades that kind of change or has no referencing rows.
-// (The two call sites, Delete and update, pass the respective constant; they are not under contract.)
+// The two call sites, Delete and update, are under contract too (C08_ invariants at the end of this file):
+// gDelBlk[i] names the arguments of the last fkeyDeleteBlock call for index i that returned normally
+// (delBlkArgs is an uninterpreted, hence possibly injective, function of them), gOutBlk the same for
+// fkeyOutputBlock.
+//@ ghost var gDelBlk ints
+//@ ghost var gOutBlk ints
+//@ spec delBlkArgs(ts *meta.Schema, key string, cascades byte) int
+//@ spec outBlkArgs(ts *meta.Schema, rec core.Record) int
 //@ func (t *UpdateTran) fkeyDeleteBlock(ts, i, key, cascades)
 //@   nosafety
 //@   maypanic
 //@   requires ts != nil && 0 <= i && i < len(ts.Schema.Indexes)
+//@   modifies gDelBlk
+//@   defines gDelBlk[i] == delBlkArgs(ts, key, cascades) && forall j :: j != i ==> gDelBlk[j] == old(gDelBlk[j])
 //@   ensures! refused_unless_cascaded: len(key) > 0 ==> forall k :: 0 <= k && k < len(ts.Schema.Indexes[i].FkToHere) ==> ((ts.Schema.Indexes[i].FkToHere[k].Mode & cascades) != 0 || !fkSrcExists(ts.Schema.Indexes[i].FkToHere[k].Table, ts.Schema.Indexes[i].FkToHere[k].IIndex))
 //@   loop 0 invariant 0 <= j && j <= len(fkToHere) && forall k :: 0 <= k && k < j ==> ((fkToHere[k].Mode & cascades) != 0 || !fkSrcExists(fkToHere[k].Table, fkToHere[k].IIndex))
 
@@ -52,6 +61,8 @@ package db19
 //@   nosafety
 //@   maypanic
 //@   requires ts != nil && 0 <= i && i < len(ts.Schema.Indexes)
+//@   modifies gOutBlk
+//@   defines gOutBlk[i] == outBlkArgs(ts, rec) && forall j :: j != i ==> gOutBlk[j] == old(gOutBlk[j])
 //@   ghost k string = key
 //@   ensures! output_blocked_without_target: len(ts.Schema.Indexes[i].Fk.Table) > 0 ==> (len(k) == 0 || fkTgtExists(ts.Schema.Indexes[i].Fk.Table, ts.Schema.Indexes[i].Fk.IIndex))
 
@@ -184,18 +195,26 @@ package db19
 // marked corrupted or the update leaves the row unchanged) has gone through CallTrigger - after the change
 // was made, so an exception from the trigger leaves the function as a panic and the caller's transaction
 // is not committed. Cascaded deletes/updates go through Delete/update again and are counted by them.
-//@ func (t *UpdateTran) Output(th, table, rec0)
+// (Output, Delete and update also carry the call site halves of C07 and C08 - invariants named C07_/C08_,
+// checked by those properties' commands only: the loop that decides whether the change is allowed has made,
+// for every index it has passed, the duplicate check and the foreign key checks with exactly these arguments.
+// The checks come before the index changes; that the lists of indexes in ts and ti correspond is C21.)
+//@ property C44 C07 C08
+//@ func (t *UpdateTran) Output(th, table0, rec0)
 //@   nosafety
 //@   maypanic
 //@   requires t != nil && t.db != nil
 //@   modifies all, gCalls, gBlockThrew, gBlockRet, gDispatch
 //@   ensures! announced: old(t.db.corrupted.v) == 0 ==> gDispatch == old(gDispatch) + 1
+//@   loop 0 invariant C07_dup_checked: forall k :: 0 <= k && k < i ==> ((ts.Schema.Indexes[k].Mode == 107 && len(ts.Schema.Indexes[k].Columns) == 0) ? ti.Nrows <= 0 : gDupBlk[k] == dupBlkArgs(table, ti.Indexes[k], rec, keys[k], ts.Schema.Indexes[k].Mode, ts.Schema.Indexes[k].Primary, ts.Schema.Indexes[k].ContainsKey))
+//@   loop 0 invariant C08_output_block_checked: forall k :: 0 <= k && k < i ==> gOutBlk[k] == outBlkArgs(ts, rec)
 //@ func (t *UpdateTran) Delete(th, table, off)
 //@   nosafety
 //@   maypanic
 //@   requires t != nil && t.db != nil
 //@   modifies all, gCalls, gBlockThrew, gBlockRet, gDispatch
 //@   ensures! announced: gDispatch >= old(gDispatch) + 1
+//@   loop 0 invariant C08_delete_block_checked: forall k :: 0 <= k && k < i ==> gDelBlk[k] == delBlkArgs(ts, keys[k], schema.CascadeDeletes)
 //@ func (t *UpdateTran) update(th, table, oldoff, newrec0, block) (r)
 //@   nosafety
 //@   maypanic
@@ -203,6 +222,10 @@ package db19
 //@   modifies all, gCalls, gBlockThrew, gBlockRet, gDispatch
 //@   ghost same bool = newrec == oldrec
 //@   ensures! announced: old(t.db.corrupted.v) == 0 && !same ==> gDispatch >= old(gDispatch) + 1
+//@   loop 0 invariant C07_dup_checked: forall k :: 0 <= k && k < i ==> (oldkeys[k] != newkeys[k] ==> gDupBlk[k] == dupBlkArgs(table, ti.Indexes[k], newrec, newkeys[k], ts.Schema.Indexes[k].Mode, ts.Schema.Indexes[k].Primary, ts.Schema.Indexes[k].ContainsKey))
+//@   loop 0 invariant C08_delete_block_checked: forall k :: 0 <= k && k < i ==> (oldkeys[k] != newkeys[k] ==> gDelBlk[k] == delBlkArgs(ts, oldkeys[k], schema.CascadeUpdates))
+//@   loop 0 invariant C08_output_block_checked: forall k :: 0 <= k && k < i ==> (oldkeys[k] != newkeys[k] && block ==> gOutBlk[k] == outBlkArgs(ts, newrec))
+//@ property C44
 
 //@ property C07
 // ---- key and unique index constraints: the per-change decision ---------------------------------------------
@@ -220,6 +243,9 @@ package db19
 //@ func needsDupCheck(ix, rec) (r)
 //@   ensures! r <==> ix.Primary || (ix.Mode == 117 && !ix.ContainsKey && !keysEmpty(rec, ix.Ixspec))
 //@ ghost var gReads int
+// gDupBlk[i] names the arguments of the last dupOutputBlock call for index i that returned normally
+//@ ghost var gDupBlk ints
+//@ spec dupBlkArgs(table string, ov *index.Overlay, rec core.Record, key string, mode int, primary bool, containsKey bool) int
 //@ func (t *UpdateTran) Read(table, index, from, to)
 //@   assumed
 //@   modifies gReads
@@ -228,6 +254,7 @@ package db19
 //@   nosafety
 //@   maypanic
 //@   requires ov != nil
-//@   modifies gReads
+//@   modifies gReads, gDupBlk
+//@   defines gDupBlk[iIndex] == dupBlkArgs(table, ov, rec, key, ix.Mode, ix.Primary, ix.ContainsKey) && forall j :: j != iIndex ==> gDupBlk[j] == old(gDupBlk[j])
 //@   ensures! no_visible_duplicate: (ix.Primary || (ix.Mode == 117 && !ix.ContainsKey && !keysEmpty(rec, ix.Ixspec))) ==> ovLook(ov, key) == 0
 //@   ensures! read_registered: (ix.Primary || (ix.Mode == 117 && !ix.ContainsKey && !keysEmpty(rec, ix.Ixspec))) ==> gReads == old(gReads) + 1
